@@ -987,9 +987,9 @@ def evaluate__codepoints_to_string(
         if isinstance(value, UntypedAtomic):
             value = int(value)
 
-        if not isinstance(value, int):
+        if not isinstance(value, int) or isinstance(value, bool):
             msg = "invalid type {} for codepoint {}".format(type(value), value)
-            if isinstance(value, str):
+            if isinstance(value, (str, bool)):
                 raise self.error('XPTY0004', msg)
             raise self.error('FORG0006', msg)
         elif is_xml_codepoint(value):
